@@ -15,7 +15,7 @@ from ..expr import peel_upd
 LEVEL = 'proof'
 EXHAUSTIVE = True
 EXPLANATION = ('Decision table of the return value, transitive effect set (frame), and value shape of the Some payload '
-               'from origin expressions of Board::null_move; all paths of the function at once.')
+               'from origin expressions of Board::null_move; all paths of the function at once; the from-scratch routine it ends with is held to the C03 reset and scan rules.')
 NOT_DECIDED = 'nothing of substance'
 KEY = 'board::Board::null_move'
 UPI = 'board::Board::update_pin_info'
